@@ -590,10 +590,18 @@ def list_literal(rng):
     return [str(rng.choice([num_literal(rng), str_literal(rng), bool_literal(rng)])) for _ in range(n)]
 
 
+SIZE_WORDS = ('nlayers', 'ngauss', 'num_', 'window', 'smoothing', 'points', 'rows', 'col', 'iter', 'modes', 'live',
+              'verbos', 'update')
+
+
 def literal_for(rng, default, key, scratch):
     """raw value (str or list of str) typed after the constructor default; 12 % of the time any type"""
     if any(w in key for w in ('path', 'filename', 'file', 'prefix')):
         return os.path.join(scratch, 'aux', key + '_%d' % int(rng.integers(0, 4)))
+    if any(w in key.lower() for w in SIZE_WORDS):
+        # parameters that size arrays / loops inside constructor bodies: keep them small (any spelling)
+        n = int(rng.integers(1, 40))
+        return str(rng.choice(['%d' % n, '%d.0' % n, '%de0' % n, '+%d' % n, '0%d' % n, '%d.' % n]))
     if rng.random() < 0.12:
         default = ('scalar', ('none',))
     if default[0] == 'list':
@@ -1060,6 +1068,9 @@ def compare_slot(ctx, slot, exp, got, case_small):
             return bad('model: error, implementation returned normally')
         if body_raised(got['calls']):
             ctx.bucket('ctor-body-raised-before-model-error')
+            return True
+        if raised_in(got['exc'], ('addGas', 'add_contribution')):
+            ctx.bucket('raised-after-construction:' + slot)
             return True
         if type(got['exc']).__name__ != exp[1]:
             return bad('exception class differs')
